@@ -382,7 +382,7 @@ func parseBuildErrors(out string) (errs []buildErr, other []string) {
 func (r *runner) build() (string, bool) {
 	for attempt := 0; ; attempt++ {
 		r.nBuild++
-		out, code, timedOut := r.command(15*time.Minute, r.dir, nil, "go", "build", "-p", "2", "-gcflags=scratchmod/w=-e", "-o", filepath.Join(r.dir, "lawbin"), "./cmd")
+		out, code, timedOut := r.command(15*time.Minute, r.dir, nil, "go", "build", "-trimpath", "-p", "2", "-gcflags=scratchmod/w=-e", "-o", filepath.Join(r.dir, "lawbin"), "./cmd")
 		if timedOut {
 			panic(gaveUp{fmt.Sprintf("%s: go build did not finish within 15 minutes", r.ps.Name)})
 		}
